@@ -90,8 +90,8 @@ ADDENDA = {
  "C18": " Empty messages (stream) and resets that answer nothing (datagram) count as messages received.",
  "C10": " Handlers of the loopback server may call back to the requesting peer (confirmable or non-confirmable) before they answer; a raw peer may reject that request with a Reset and go on talking (one conversation, one connection).",
  "C11": " Nested requests may be non-confirmable; injected messages may be resets that answer nothing pending.",
- "C12": " Requests may carry No-Response.",
- "C13": " Requests may carry No-Response.",
+ "C12": " Requests may carry No-Response; the server application may tag its notifications only, not the blocks fetched afterwards.",
+ "C13": " Requests may carry No-Response; the server application may tag its notifications only, not the blocks fetched afterwards.",
  "C14": " Engine expiring: elements whose deadline falls into store-if-absent calls that wait for the table's lock (real goroutines, timing-independent oracle).",
  "C17": " A third of the scenarios put a history (requests, re-registrations, removals, added middlewares) between set-up and the examined request.",
  "C20": " Engine blockwise: No-Response together with block-wise request and response bodies between two library endpoints; the end-to-end requests also carry options of other features (Observe, Accept, Uri-Query, Block2, Size1).",
